@@ -383,6 +383,32 @@ impl TCheck for C07 {
                 },
             );
         }
+        // clusters at the scale of the library's own constants (1 MiB, 4 MiB, 16 MiB): one work in
+        // eight has two compressed clusters of 1.1..1.6 MiB that readers first look at only partly
+        // while the decompression pool has one or two slots; one work has a single compressible
+        // content above 16 MiB
+        let mib_pair = work % 8 == 2;
+        let above_16mib = work == 5;
+        if mib_pair || above_16mib {
+            let pack = logical.contents.first().map(|c| c.pack).unwrap_or(1);
+            let lens: Vec<usize> = if above_16mib {
+                vec![rng.range(17 << 20, 19 << 20) as usize]
+            } else {
+                vec![rng.range(1_150_000, 1_600_000) as usize, rng.range(1_150_000, 1_600_000) as usize]
+            };
+            for (k, len) in lens.into_iter().enumerate() {
+                let at = rng.usize_below(logical.contents.len() + 1);
+                logical.contents.insert(
+                    at,
+                    gen::ContentSpec {
+                        bytes: Arc::new(gen::gen_bytes(&mut rng, 9990 + k, len, gen::Flavor::Text)),
+                        hint: gen::Hint::Yes,
+                        src: SrcKind::Cursor,
+                        pack,
+                    },
+                );
+            }
+        }
         let create_knobs = vec![
             ("creator_workers", 2u64),
             ("cluster_max_blobs", rng.range(1, 6)),
@@ -393,9 +419,9 @@ impl TCheck for C07 {
         let hooks = crate::exec::current_hooks();
         let image = Arc::new(build_image(&hooks, logical.clone(), &dir, &create_knobs, simcore::prng::hash_label(seed, "c07-img", work)));
         let knobs = vec![
-            ("decode_chunk", if big { *rng.pick(&[4096u64, 65536]) } else { *rng.pick(&[1u64, 7, 64, 4096]) }),
-            ("cluster_cache", *rng.pick(&[1u64, 2, 3, 40])),
-            ("decomp_pool_size", *rng.pick(&[1u64, 2, 8])),
+            ("decode_chunk", if mib_pair || above_16mib { 65536 } else if big { *rng.pick(&[4096u64, 65536]) } else { *rng.pick(&[1u64, 7, 64, 4096]) }),
+            ("cluster_cache", if mib_pair { 40 } else { *rng.pick(&[1u64, 2, 3, 40]) }),
+            ("decomp_pool_size", if mib_pair { *rng.pick(&[1u64, 2]) } else { *rng.pick(&[1u64, 2, 8]) }),
             ("stream_short_read_pm", *rng.pick(&[0u64, 0, 250])),
             ("stream_short_read_seed", rng.next_u64() >> 1),
         ];
@@ -408,13 +434,39 @@ impl TCheck for C07 {
                 hot[0] = i;
             }
         }
+        let mib: Vec<usize> = image
+            .model
+            .contents
+            .iter()
+            .enumerate()
+            .filter(|(_, c)| c.bytes.len() >= 1_000_000)
+            .map(|(i, _)| i)
+            .collect();
+        if !mib.is_empty() {
+            hot = vec![mib[0], *mib.last().unwrap()];
+        }
         let ops: Vec<Vec<Op>> = (0..readers)
             .map(|_| {
                 let n = rng.range(4, 12);
                 (0..n).map(|_| gen_op(&mut rng, &image.model, &hot)).collect()
             })
             .collect();
-        let desc = json!({"image": gen::describe(&logical), "readers": readers, "big_compressed_cluster": big,
+        let mut ops = ops;
+        if mib_pair {
+            // every reader starts with a look at the head of one of the MiB-sized contents (the
+            // decoder of that cluster then has a reader far behind it), then goes elsewhere
+            for (r, o) in ops.iter_mut().enumerate() {
+                o.insert(
+                    0,
+                    Op::Slice {
+                        content: mib[r % mib.len()],
+                        off: 0,
+                        len: 100,
+                    },
+                );
+            }
+        }
+        let desc = json!({"image": gen::describe(&logical), "readers": readers, "big_compressed_cluster": big, "two_MiB_sized_compressed_clusters": mib_pair, "content_above_16_MiB": above_16mib,
                           "ops": ops.iter().map(|o| o.iter().map(|x| format!("{x:?}")).collect::<Vec<_>>()).collect::<Vec<_>>(),
                           "hot_contents": hot});
         let ops = Arc::new(ops);
